@@ -92,6 +92,12 @@ func (ledger *SimpleLedger[T]) Get(key LedgerKey) (T, xerrors.XError) {
 func (ledger *SimpleLedger[T]) get(key LedgerKey) (T, xerrors.XError) {
 	var emptyNil T
 
+	// an item set again (re-created) after being removed is pending in updatedItems
+	// and must be visible although its key is still in removedKeys (see issue #58)
+	if item, ok := ledger.cachedItems.getUpdatedItem(key); ok {
+		return item, nil
+	}
+
 	// if the item is already removed, return xerrors.ErrNotFoundResult
 	if ledger.cachedItems.isRemovedKey(key) {
 		return emptyNil, xerrors.ErrNotFoundResult
